@@ -135,6 +135,10 @@ InitProg ==
      /\ \E ann \in Anns, pkg \in {"d", "u"}, k \in Kinds, s \in Stmts, v \in {"p", "r"}, p \in BOOLEAN, n \in Nests :
           /\ Valid(Cont(k, s, v, p, n, "direct"), pkg)
           /\ prog = [ann |-> ann, pkg |-> pkg, files |-> OneFile(Cont(k, s, v, p, n, "direct"))]
+  \/ /\ Mode = "single0"   \* the slice of "single" without nesting (used for the non-vacuity runs of the deviations)
+     /\ \E ann \in {a \in Anns : ~a.noise}, pkg \in {"d", "u"}, k \in Kinds, s \in Stmts, v \in {"p", "r"}, p \in BOOLEAN :
+          /\ Valid(Cont(k, s, v, p, "none", "direct"), pkg)
+          /\ prog = [ann |-> ann, pkg |-> pkg, files |-> OneFile(Cont(k, s, v, p, "none", "direct"))]
   \/ /\ Mode = "spell"
      /\ \E ann \in {a \in Anns : ~a.noise}, pkg \in {"d", "u"}, k \in {"ctor1", "other", "init", "ometh"},
           s \in Stmts \ {"onU", "onTG", "local", "recvAssign", "recvInc", "recvDec"}, p \in BOOLEAN, sp \in Spells :
